@@ -904,6 +904,15 @@ def run(ctx):
     quiet()
     ctx.level = "model_checking"
     models = Models(ctx)
+    try:
+        _run(ctx, models)
+    finally:
+        # the JVMs write their exports into ctx.scratch: none may outlive this function (run.py removes the scratch on return)
+        for th in models.threads.values():
+            th.join()
+
+
+def _run(ctx, models):
     boxes = ["q1", "q2", "q3"] if ctx.quick else ["t1", "t2", "t3", "t4", "t5"]
     tier = "quick" if ctx.quick else "thorough"
     # small models first (their exports are needed first), coverage on (vacuity by action counts); the glob boxes use the
